@@ -1,4 +1,5 @@
 import EpgVerif.Props.C14
+import EpgVerif.Tie.ShiftSites
 open EpgVerif.Props.C14
 #print axioms q_rotation
 #print axioms T_isometry
@@ -9,3 +10,4 @@ open EpgVerif.Props.C14
 #print axioms spoiler_contracts
 #print axioms normSq_eq_code_norm
 #print axioms energy_shiftF
+#print axioms EpgVerif.Tie.ShiftSites.sites_as_modelled
